@@ -1,3 +1,5 @@
+mod c04;
+mod c03;
 mod c08;
 mod c19;
 mod canon;
@@ -5,6 +7,7 @@ mod wrap;
 mod common;
 mod o_text;
 mod tab;
+mod tokstream;
 use common::*;
 
 fn main() {
@@ -19,6 +22,7 @@ fn main() {
             let c = load_corpus();
             let reps: Vec<Report> = match p {
                 "C01" => vec![o_text::c01(&c, &tier)],
+                "C03" => c03::oracle(seed, &tier),
                 "C05" => vec![o_text::c05(&c, &tier)],
                 "C08" => c08::oracle(&c, seed, &tier),
                 "C11" => vec![o_text::c11(&c, &tier)],
@@ -32,10 +36,14 @@ fn main() {
             std::fs::create_dir_all(dir).unwrap();
             let rep = match name {
                 "kw" => c08::corr(dir, seed, &tier),
+                "prec" => c04::corr_prec(dir, seed, &tier),
+                "chains" => c04::corr_chains(dir, seed, &tier),
+                "tok" => tokstream::corr(dir, seed, &tier),
                 _ => { eprintln!("no corr stream {name}"); std::process::exit(2) }
             };
             rep.emit();
         }
+        Some("nest-child") => c03::child(&args[2..]),
         Some("corpus-stats") => {
             let c = load_corpus();
             println!("literals={} accepted_pairs={}", c.literals.len(), c.accepted.len());
